@@ -1,6 +1,7 @@
 package main
 
 import (
+	"go/types"
 	"strings"
 
 	"golang.org/x/tools/go/ssa"
@@ -215,6 +216,7 @@ func checkC17(c *Check) {
 	c.Ob("R4", "reader slices the serial at the writer's boundary", rd.Pos(), sliceAt == wmin, "serial read from offset "+itoa(sliceAt)+", written at "+itoa(wmin))
 	c.keyLayoutsRule("R4", []string{kpkg}, 1, 0)
 	c.serialBaseRule("R4")
+	c.keeperIterators(kpkg)
 	// lookup by (owner, serial) answers "not found" only on a store miss: whatever CreateCertificate accepted and
 	// stored under certificateKey(id) is found again (no extra rejection of ids in the reader)
 	{
@@ -449,5 +451,93 @@ func (c *Check) serialBaseRule(rule string) {
 	}
 	if n < 3 {
 		c.Fail("%s lost instances: %d serial conversions", rule, n)
+	}
+}
+
+// keeperIterators (R6): the keeper's With* iterators stop early only when the caller's callback asked for it. In a
+// loop form, every exit from the loop other than the exhausted iterator is under the fact "fn(item) returned true";
+// in a delegating form (a wrapper closure handed to another With* iterator) every value the wrapper returns is false
+// or the result of calling fn. A certificate that does not match a state filter is skipped, never a reason to stop.
+func (c *Check) keeperIterators(kpkg string) {
+	l := c.L
+	n := 0
+	for _, fn := range l.pkgFuncs(kpkg) {
+		if fn.Parent() != nil || !strings.HasPrefix(fn.Name(), "With") || fn.Signature.Recv() == nil {
+			continue
+		}
+		var cb *ssa.Parameter
+		for _, p := range fn.Params {
+			if sig, ok := p.Type().Underlying().(*types.Signature); ok && sig.Results().Len() == 1 && sig.Results().At(0).Type().String() == "bool" {
+				cb = p
+			}
+		}
+		if cb == nil {
+			continue
+		}
+		n++
+		c.Analysed(fnName(fn))
+		isCbCall := func(v ssa.Value) bool {
+			cv, ok := v.(*ssa.Call)
+			return ok && cv.Call.StaticCallee() == nil && !cv.Call.IsInvoke() && (cv.Call.Value == ssa.Value(cb) || Sym(cv.Call.Value) == Sym(cb) || strings.HasSuffix(Sym(cv.Call.Value), "fv:"+paramName(cb)))
+		}
+		ok := true
+		why := ""
+		// loop form
+		for _, b := range fn.Blocks {
+			h := loopHeaderOf(b)
+			if h == nil || b == h {
+				continue
+			}
+			body := loopBlocks(h)
+			for si, sb := range b.Succs {
+				if body[sb] {
+					continue
+				}
+				// an exit from inside the body: allowed only on the true edge of the callback's answer (or a panic)
+				if _, isPanic := sb.Instrs[len(sb.Instrs)-1].(*ssa.Panic); isPanic {
+					continue
+				}
+				ifi, isIf := b.Instrs[len(b.Instrs)-1].(*ssa.If)
+				stopOK := false
+				if isIf && si == 0 && isCbCall(ifi.Cond) {
+					stopOK = true
+				}
+				if !isIf {
+					// unconditional break: the block must be dominated by the callback's true edge
+					for _, a := range factsAt(b) {
+						if a.Op == "true" && isCbCall(a.X) {
+							stopOK = true
+						}
+					}
+				}
+				if !stopOK {
+					ok = false
+					why = "the iteration can stop at " + l.Pos(b.Instrs[len(b.Instrs)-1].Pos()) + " although the callback did not ask for it: entries after that point are missing from the listing"
+				}
+			}
+		}
+		// delegating form
+		for _, g := range fnAndClosures(fn)[1:] {
+			if res := g.Signature.Results(); res.Len() != 1 || res.At(0).Type().String() != "bool" {
+				continue
+			}
+			for _, b := range g.Blocks {
+				r, isR := b.Instrs[len(b.Instrs)-1].(*ssa.Return)
+				if !isR {
+					continue
+				}
+				for _, lf := range retLeaves(r.Results[0], b, map[ssa.Value]bool{}) {
+					if isConstBool(lf.val, false) || isCbCall(lf.val) {
+						continue
+					}
+					ok = false
+					why = "the wrapper callback at " + l.Pos(g.Pos()) + " can return " + short(Sym(lf.val)) + ": the underlying iteration stops on a certificate the caller's callback never saw"
+				}
+			}
+		}
+		c.Ob("R6", fn.Name()+" stops early only when the caller's callback returns true", fn.Pos(), ok, why)
+	}
+	if n < 4 {
+		c.Fail("C17-R6 lost instances: %d keeper iterators", n)
 	}
 }
